@@ -359,7 +359,7 @@ func hashStrings(l []string) uint64 {
 }
 
 func runC19(r *hx.Result, cfg hx.Config) {
-	r.Rule = "in-package: one case = one random Set/Delete history (ids from a 10-symbol alphabet; strings, points, rects, 12 GeoJSON shapes incl. empty FeatureCollection/GeometryCollection; deadlines from 6 values incl. 0; 0-3 fields) checked after every step; non-trivial = history containing at least one overwrite that changes kind (string/geometry/empty geometry) or deadline presence and at least two kinds. black-box: one case = one (history, key) STATS/BOUNDS/COUNT comparison or one server-total comparison after a random command history incl. RENAME/RENAMENX/DROP/FLUSHDB/PDEL/FSET/EXPIRE/PERSIST; non-trivial = the key holds at least two objects of different kinds."
+	r.Rule = "in-package: one case = one random Set/Delete history (ids from a 10-symbol alphabet; strings, points, rects, 12 GeoJSON shapes incl. empty FeatureCollection/GeometryCollection; deadlines from 6 values incl. 0; 0-3 fields) checked after every step; non-trivial = history containing at least one overwrite that changes kind (string/geometry/empty geometry) or deadline presence and at least two kinds. black-box: one case = one (history, key) STATS/BOUNDS/COUNT comparison or one server-total comparison after a random command history incl. RENAME/RENAMENX/DROP/FLUSHDB/PDEL/FSET/EXPIRE/PERSIST and refused / conditional writes (SET XX|NX, FSET XX, EXPIRE/PERSIST/DEL/PDEL/DROP on missing or just-emptied keys), with KEYS and num_collections compared against the keys from which GET retrieves at least one object; non-trivial = the key holds at least two objects of different kinds."
 	r.Assumptions = []string{
 		"object attributes (IsSpatial, Empty, NumPoints, Weight, String, Expires, Rect) are read through the real methods and handed to the model as data",
 		"tidwall/btree = strictly sorted list, tidwall/rtree = unordered entry list (internal order not modelled)",
@@ -524,6 +524,11 @@ func recompute(objs []dumpObj) recomputed {
 var bbKeys = []string{"k1", "k2", "k3", "tmp"}
 var bbIDs = []string{"a", "b", "c", "d", "e", "f"}
 
+// every key / id any black-box command of this harness can name (the generator's alphabets plus the
+// directed corpus): "retrievable" is decided by GET over this universe, independently of KEYS and SCAN
+var allKeys = []string{"k1", "k2", "k3", "tmp", "depot", "b"}
+var allIDs = []string{"a", "b", "c", "d", "e", "f", "gate1", "p1", "p2"}
+
 func blackBox(r *hx.Result, cfg hx.Config, rng *rand.Rand) {
 	rounds, ops := 4, 70
 	if cfg.Tier == "thorough" || cfg.Search {
@@ -550,8 +555,43 @@ func blackBox(r *hx.Result, cfg hx.Config, rng *rand.Rand) {
 				do("SET", "k1", "c", "STRING", "y", "FIELD", "f", "1")
 				checkServer(r, c, hist, round, -1)
 			}
+			if round == 0 {
+				// regression corpus: refused and conditional writes on missing / emptied keys must leave no
+				// trace in KEYS, SERVER num_collections, STATS, BOUNDS (checked after every command)
+				for _, cmd := range [][]string{
+					{"SET", "depot", "gate1", "XX", "POINT", "10", "20"},
+					{"SET", "depot", "gate1", "XX", "STRING", "closed"},
+					{"FSET", "depot", "gate1", "XX", "f", "1"},
+					{"FSET", "depot", "gate1", "f", "1"},
+					{"EXPIRE", "depot", "gate1", "100"},
+					{"PERSIST", "depot", "gate1"},
+					{"DEL", "depot", "gate1"},
+					{"PDEL", "depot", "*"},
+					{"DROP", "depot"},
+					{"SET", "depot", "gate1", "NX", "POINT", "10", "20"},
+					{"SET", "depot", "gate1", "NX", "STRING", "again"},
+					{"SET", "depot", "a", "XX", "POINT", "1", "2"},
+					{"DEL", "depot", "gate1"},
+					{"SET", "depot", "gate1", "XX", "STRING", "closed"},
+					{"SET", "depot", "gate1", "STRING", "open"},
+					{"PDEL", "depot", "*"},
+					{"SET", "depot", "gate1", "XX", "POINT", "10", "20"},
+					{"SET", "depot", "gate1", "EX", "100000", "POINT", "10", "20"},
+					{"DROP", "depot"},
+					{"FSET", "depot", "gate1", "XX", "f", "1"},
+					{"JSET", "depot", "gate1", "n", "1"},
+					{"JDEL", "depot", "gate1", "n"},
+					{"DEL", "depot", "gate1"},
+				} {
+					do(cmd...)
+					checkServer(r, c, hist, round, -2)
+				}
+			}
 			for i := 0; i < ops; i++ {
 				key, id := bbKeys[rng.Intn(3)], bbIDs[rng.Intn(len(bbIDs))]
+				if rng.Intn(5) == 0 {
+					key = allKeys[rng.Intn(5)] // incl. "tmp" and "depot": usually missing or just emptied
+				}
 				switch k := rng.Intn(100); {
 				case k < 50:
 					args := []string{"SET", key, id}
@@ -560,6 +600,14 @@ func blackBox(r *hx.Result, cfg hx.Config, rng *rand.Rand) {
 					}
 					if rng.Intn(4) == 0 {
 						args = append(args, "EX", "100000")
+					}
+					switch rng.Intn(6) { // conditional writes: refused ones must change nothing
+					case 0:
+						args = append(args, "XX")
+						r.Dist("bb:SET-XX")
+					case 1:
+						args = append(args, "NX")
+						r.Dist("bb:SET-NX")
 					}
 					switch rng.Intn(8) {
 					case 0, 1:
@@ -579,8 +627,13 @@ func blackBox(r *hx.Result, cfg hx.Config, rng *rand.Rand) {
 					do("DEL", key, id)
 					r.Dist("bb:DEL")
 				case k < 70:
-					do("FSET", key, id, []string{"f", "g", "h"}[rng.Intn(3)], []string{"0", "1", "33"}[rng.Intn(3)])
-					r.Dist("bb:FSET")
+					if rng.Intn(3) == 0 {
+						do("FSET", key, id, "XX", []string{"f", "g", "h"}[rng.Intn(3)], []string{"0", "1", "33"}[rng.Intn(3)])
+						r.Dist("bb:FSET-XX")
+					} else {
+						do("FSET", key, id, []string{"f", "g", "h"}[rng.Intn(3)], []string{"0", "1", "33"}[rng.Intn(3)])
+						r.Dist("bb:FSET")
+					}
 				case k < 75:
 					do("EXPIRE", key, id, "100000")
 					r.Dist("bb:EXPIRE")
@@ -683,6 +736,22 @@ func checkServer(r *hx.Result, c *srv.Conn, hist []string, round, step int) {
 	for _, e := range kv.Array {
 		keys = append(keys, e.Str)
 	}
+	// collections that hold at least one retrievable object, decided by GET alone
+	var live []string
+	for _, key := range allKeys {
+		for _, id := range allIDs {
+			if g := c.MustDo("GET", key, id); g.Kind == '$' {
+				live = append(live, key)
+				break
+			}
+		}
+	}
+	sort.Strings(live)
+	sortedKeys := append([]string{}, keys...)
+	sort.Strings(sortedKeys)
+	if strings.Join(sortedKeys, "\x01") != strings.Join(live, "\x01") {
+		fail("keys-vs-retrievable", fmt.Sprintf("KEYS * = %q, the keys holding at least one retrievable object are %q", sortedKeys, live))
+	}
 	var tot recomputed
 	for _, key := range keys {
 		objs := scanDump(c, key)
@@ -762,24 +831,30 @@ func checkServer(r *hx.Result, c *srv.Conn, hist []string, round, step int) {
 	m := statsMap(sv)
 	r.Count(fmt.Sprintf("bb/%d/%d/server", round, step), len(keys) >= 2)
 	if m["num_objects"] != tot.objects || m["num_strings"] != tot.strings || m["num_points"] != tot.points ||
-		m["in_memory_size"] != tot.weight || m["num_collections"] != int64(len(keys)) {
-		fail("server-totals", fmt.Sprintf("SERVER = objects %d strings %d points %d size %d collections %d; sums over the dump give %d %d %d %d %d",
-			m["num_objects"], m["num_strings"], m["num_points"], m["in_memory_size"], m["num_collections"], tot.objects, tot.strings, tot.points, tot.weight, len(keys)))
+		m["in_memory_size"] != tot.weight {
+		fail("server-totals", fmt.Sprintf("SERVER = objects %d strings %d points %d size %d; sums over the dump give %d %d %d %d",
+			m["num_objects"], m["num_strings"], m["num_points"], m["in_memory_size"], tot.objects, tot.strings, tot.points, tot.weight))
 	}
-	// a key not listed by KEYS must be gone through every path
-	for _, key := range bbKeys {
-		listed := false
-		for _, k := range keys {
-			listed = listed || k == key
+	if m["num_collections"] != int64(len(live)) {
+		fail("num-collections", fmt.Sprintf("SERVER num_collections = %d, %d keys hold a retrievable object (%q)", m["num_collections"], len(live), live))
+	}
+	// a key without any retrievable object must be absent through every path
+	for _, key := range allKeys {
+		isLive := false
+		for _, k := range live {
+			isLive = isLive || k == key
 		}
-		if listed {
+		if isLive {
 			continue
 		}
+		if v := c.MustDo("BOUNDS", key); v.Kind == '*' {
+			fail("dropped-key-visible", fmt.Sprintf("no object is retrievable from %q but BOUNDS %s = %s (want nil)", key, key, v.String()))
+		}
 		if v := c.MustDo("SCAN", key, "COUNT"); num(v) != 0 {
-			fail("dropped-key-visible", fmt.Sprintf("KEYS does not list %q but SCAN %s COUNT = %d", key, key, num(v)))
+			fail("dropped-key-visible", fmt.Sprintf("no object is retrievable from %q but SCAN %s COUNT = %d", key, key, num(v)))
 		}
 		if v := c.MustDo("STATS", key); len(v.Array) == 1 && v.Array[0].Kind == '*' {
-			fail("dropped-key-visible", fmt.Sprintf("KEYS does not list %q but STATS reports it", key))
+			fail("dropped-key-visible", fmt.Sprintf("no object is retrievable from %q but STATS %s = %s (want nil)", key, key, v.Array[0].String()))
 		}
 	}
 	if step < 10 && round == 0 {
